@@ -10,6 +10,7 @@ CONSTANTS
   Deviations = {"RenameKeepsLabel", "WsRemoveKeepsChild", "HoleRemovalKeepsObjectRows", "HoleRemovalKeepsGroupChild", "StalePgIdCache", "EmptyTableRaises", "TableByLabel"}
   MaxLevel = 3
   Acts = {"Populate", "AddDepthData", "SetValues", "RemoveDataViaParent", "RemoveHoleViaParent", "RemovePropertyGroup", "Reopen"}
+  TrackSession = FALSE
   Kind = "float"
 VIEW vw
 INVARIANT ExportState
